@@ -1349,9 +1349,13 @@ pub fn configs(prop: SProp, tier: Tier) -> Vec<SCfg> {
                                 [HKind::Run, HKind::Run, HKind::Run],
                                 [HKind::DropIfr, HKind::Run, HKind::DropAfter(1)],
                                 [HKind::DropAfter(0), HKind::DropIfr, HKind::Run],
+                                [HKind::Panic, HKind::Run, HKind::DropAfter(2)],
                             ] {
                                 for pol in [[true, true, true], [true, false, true], [false, false, false]] {
                                     if !thorough && rb == 2 && (pol[1] || kinds[0] != HKind::Run) {
+                                        continue;
+                                    }
+                                    if !thorough && kinds[0] == HKind::Panic && pol != [true, false, true] {
                                         continue;
                                     }
                                     // three requests, then their ids reused (slot reuse)
